@@ -1246,7 +1246,7 @@ def run(rep):
     for i in range(8 if thorough else 2):
         found += c06.goal_independence(rep, rng, i)
     rep.stage('system:configure->make->recorder', projects=rep.traces)
-    if dis and not found:
+    if dis and not rep.n_with_input:
         i, call, iv, mv = dis[0]
         rep.fail('W:%s - model and implementation disagree (%d cases), e.g. %r: impl %r, model %r' % (
             call[0], len(dis), call[1], iv, mv),
